@@ -77,6 +77,29 @@ Theorem fresh_environment_clean : forall plans, clean (init plans).
 Proof. exact init_clean. Qed.
 Print Assumptions fresh_environment_clean.
 
+(* the same for set_attr (send and receive in one call) and for a remote call of a forbidden name (every worker
+   raises ValueError itself): all four command kinds reach the caller *)
+Theorem set_attr_fault_surfaces : forall e,
+  clean e -> Forall calm (ws e) -> raised (ws e) <> [] ->
+  fst (set_attr e) = Exc (last (map snd (raised (ws e))) 0) /\ st (snd (set_attr e)) = DEFAULT /\
+  closed (snd (set_attr e)) = false.
+Proof. exact set_attr_fault_surfaces_lemma. Qed.
+Print Assumptions set_attr_fault_surfaces.
+
+Theorem set_attr_healthy : forall e,
+  clean e -> Forall (fun w => next w = Normal) (ws e) ->
+  fst (set_attr e) = Ok /\ st (snd (set_attr e)) = DEFAULT /\ ws (snd (set_attr e)) = map emptied (ws e).
+Proof. exact set_attr_healthy_lemma. Qed.
+Print Assumptions set_attr_healthy.
+
+Theorem forbidden_call_surfaces : forall fin e,
+  clean e -> ws e <> [] ->
+  fst (call_bad e) = Ok /\
+  let r := wait KCall fin (snd (call_bad e)) in
+  fst r = Exc EValueError /\ st (snd r) = DEFAULT /\ closed (snd r) = false.
+Proof. exact forbidden_call_surfaces_lemma. Qed.
+Print Assumptions forbidden_call_surfaces.
+
 (* A sub-environment that sleeps past a finite timeout: the wait reports Timeout (and resets the state). *)
 Theorem timeout_reported : forall k e,
   clean e -> Exists (fun w => next w = Sleep) (ws e) ->
